@@ -5,8 +5,8 @@ The byte layout of every scenario (N and the item boundaries) is asked from the 
 import os
 import random
 
-SCENARIOS = ["hin", "hout", "seed", "leech", "dis", "pex", "multi", "mblk", "hs3", "full"]
-SEEDING = {"hin", "seed", "pex", "hs3", "full"}
+SCENARIOS = ["hin", "hout", "seed", "leech", "dis", "pex", "multi", "mblk", "hs3", "full", "fullx"]
+SEEDING = {"hin", "seed", "pex", "hs3", "full", "fullx"}
 PEER_FAULTS = "XRH"          # remote close / reset / half close of one peer
 GLOBAL_FAULTS = "TSCDM"      # timeout, local stop / close / remove, every peer at once
 CORPUS = os.path.join(os.path.dirname(os.path.dirname(os.path.abspath(__file__))), "corpus", "C16")
@@ -74,8 +74,9 @@ def gen(seed, tier, layouts):
         for k in sorted(ks):
             full = tier != "thorough" or k in bnd or k % 7 == 0
             faults = []
+            big = N > 20000 and not full     # long scripts (16 KiB blocks): off the boundaries only close + stop
             for f in PEER_FAULTS:
-                if f == "H" and not full:
+                if (f == "H" and not full) or (big and f != "X"):
                     continue
                 for t in range(np_):
                     faults.append((f, t))
@@ -83,6 +84,8 @@ def gen(seed, tier, layouts):
                 if f == "M" and np_ == 1 and not full:
                     continue
                 if f == "T" and not full:
+                    continue
+                if big and f != "S":
                     continue
                 faults.append((f, 0))
             for f, t in faults:
